@@ -157,7 +157,7 @@ def _case(ctx, cls, label):
 @register
 class SetExistingField(Contract):
     fn = "gfapy/line/common/field_data.py::FieldData._set_existing_field"
-    props = ("C08", "C09", "C18", "C20")
+    props = ("C08", "C09", "C18", "C20", "C05")
     fragment = "H"
     doc = ("per receiver class (segment, link, GFA2 edge, gap, unordered group): a raising path has written nothing (dirty = false) and raises a gfapy.Error; "
            "NotUniqueError iff a connected line is renamed onto an identifier carried by another line; RuntimeError iff a protected field of a "
@@ -196,7 +196,7 @@ class _Flag:
 @register
 class SetField(Contract):
     fn = "gfapy/line/common/field_data.py::FieldData.set"
-    props = ("C20", "C07", "C08", "C18")
+    props = ("C20", "C07", "C08", "C18", "C05")
     doc = ("set(name, value), by case: a field that exists or is predefined -> _set_existing_field; an alias -> set on the real name; a virtual "
            "line -> RuntimeError; a NEW tag (level 0, or a valid custom tag name): refused with FormatError when the name shadows an attribute of "
            "the line, handed to _set_existing_field when its datatype was declared, otherwise stored together with the DEFAULT datatype of the "
